@@ -82,6 +82,15 @@ Section Runs.
     (forall p v, alookup p r = Some v -> ~ In p (map fst todo) -> alookup p rec0 = Some v).
   Proof. apply (install_record vvalid vle inst); [apply process_all_wf|apply process_all_pins]. Qed.
 
+  Theorem run_tracks inst cfg files allow ia rec0 todo r u :
+    NoDup (map fst rec0) -> no_marker rec0 ->
+    (forall p, ~ In p (map fst todo) -> ia p = inst p) ->
+    (forall p w, In (p, Some w) todo -> truthy (ia p) = Some w) ->
+    install allow ia rec0 (process_all inst cfg files) = ODone todo r u ->
+    forall p e v, tlookup p (process_all inst cfg files) = Some e -> alookup p r = Some v ->
+    exists iv, truthy (ia p) = Some iv /\ (v = iv \/ (vvalid v = true /\ vvalid iv = true /\ veq vle v iv = true)).
+  Proof. apply (install_tracks vvalid vle inst); [apply process_all_wf|apply process_all_pins]. Qed.
+
   (* ---------- repeated runs ---------- *)
   (* ghost state: per package key, the version that pyscript's latest installer call for it installed *)
   Definition ghost_one (env1 : alist) (g : alist) (a : str * option str) : alist :=
